@@ -9,6 +9,7 @@ import (
 	"strings"
 	"sync"
 	"sync/atomic"
+	"time"
 
 	"github.com/buildkite/go-pipeline/ordered"
 	"gopkg.in/yaml.v3"
@@ -90,6 +91,10 @@ func anyToDoc(v any) *doc.Node {
 		return n
 	case *doc.Node:
 		return t
+	case time.Time:
+		return doc.T(t.Format(time.RFC3339Nano), t)
+	case uint64:
+		return doc.F(float64(t))
 	}
 	return doc.S(fmt.Sprintf("<unsupported %T>", v))
 }
